@@ -145,7 +145,7 @@ func inferPatterns(vars []string, body string) []string {
 			}
 		}
 		_ = childHasAll
-		if !bad && len(vs) > 0 && isCandidateHead(n.kids[0]) {
+		if !bad && len(vs) > 0 && isCandidateHead(n.kids[0]) && !strings.Contains(body[n.s:n.e], "(ite ") {
 			cands = append(cands, cand{n, vs})
 		}
 		return vs, bad
